@@ -43,9 +43,14 @@ ConstAccepted ==
         \A i \in DOMAIN args : ~IsConstT(args[i]) =>
             Best(Ops[oi], Subst(args, i, MkConst(args[i]))).o = "match"
 
+(* the result is a constant (one value for every row; accepted by parameters declared constant) only for an element-wise     *)
+(* operator applied to constants: a window or aggregate function of constants (row_number(), lit.shift(..)) varies by row / *)
+(* depends on the rows of the table                                                                                        *)
+ResultConst == Ops[oi].kind = "ELEMENT_WISE" /\ \A i \in DOMAIN args : IsConstT(args[i])
+
 Emit == /\ ~done
         /\ LET b == Best(Ops[oi], args) IN
-           PrintT(ToJson([op |-> Ops[oi].name, args |-> args, o |-> b.o, ret |-> b.ret, su |-> SizedUniform, ca |-> ConstAccepted]))
+           PrintT(ToJson([op |-> Ops[oi].name, args |-> args, o |-> b.o, ret |-> b.ret, su |-> SizedUniform, ca |-> ConstAccepted, rc |-> ResultConst]))
         /\ done' = TRUE
         /\ UNCHANGED <<oi, args>>
 
